@@ -595,6 +595,25 @@ func run(c Case) (v *vcore.Violation, stt stats) {
 			if g := drainGNBs(); len(g) > 0 {
 				return vcore.Violatef("unexpected-emission", "%s: packets emitted on PDR creation", what), stt
 			}
+		case "reassoc":
+			// the session's node sets its association up again: all of its sessions end, their SEIDs become free for anybody
+			if ev.Sess >= len(ms) {
+				continue
+			}
+			node := ms[ev.Sess].spec.Node
+			o := r.Step(stack.Op{Kind: "assoc", Peer: node, Node: node, Sess: -1})
+			if x := dead(o, what); x != nil {
+				return x, stt
+			}
+			for _, m := range ms {
+				if m.alive && m.spec.Node == node {
+					m.alive = false
+					m.q = map[uint16][]string{}
+				}
+			}
+			if g := drainGNBs(); len(g) > 0 {
+				return vcore.Violatef("unexpected-emission", "%s: packets emitted on re-association", what), stt
+			}
 		case "del":
 			if ev.Sess >= len(ms) || !ms[ev.Sess].alive {
 				continue
@@ -656,7 +675,7 @@ func gen(t *rapid.T) Case {
 		c.Sess = append(c.Sess, genSess(t, uint64(0x60+i)))
 	}
 	// scripted cores make the interesting shapes frequent; free-form events follow
-	scen := rapid.SampledFrom([]string{"free", "free", "overflow", "twoforw", "reuse", "recreate", "dropshared"}).Draw(t, "scenario")
+	scen := rapid.SampledFrom([]string{"free", "free", "overflow", "twoforw", "reuse", "reassocreuse", "recreate", "dropshared"}).Draw(t, "scenario")
 	if scen != "free" {
 		c.Sess[0].FARs[0].Action = rapid.SampledFrom([]uint16{BUFF, BUFF | NOCP}).Draw(t, "a0")
 		c.Sess[0].PDRs[0].FAR = 1
@@ -682,6 +701,14 @@ func gen(t *rapid.T) Case {
 			c.Evs = append(c.Evs, small())
 		}
 		c.Evs = append(c.Evs, b2(), Ev{Kind: "updfar", Sess: 0, FAR: 1, Action: DROP}, Ev{Kind: "updfar", Sess: 0, FAR: 1, Action: BUFF}, b2(), forw)
+	case "reassocreuse":
+		// a notified packet for node A's session, A re-associates, the other node gets the freed SEID: its notification is its own
+		sp := genSess(t, 0x7e)
+		sp.Node = 1 - c.Sess[0].Node
+		sp.FARs[0].Action = BUFF | NOCP
+		sp.PDRs[0].FAR = 1
+		c.Evs = append(c.Evs, Ev{Kind: "burst", Sess: 0, Target: "live", PDR: 1, N: 1, NOCP: true}, Ev{Kind: "reassoc", Sess: 0}, Ev{Kind: "est", Spec: &sp},
+			Ev{Kind: "burst", Sess: ns, Target: "live", PDR: 1, N: 2, NOCP: true}, Ev{Kind: "updfar", Sess: ns, FAR: 1, Action: FORW})
 	case "recreate":
 		// packets buffered for PDR 1, PDR 1 removed and created again, more packets, release: only the new ones may come out
 		c.Evs = append(c.Evs, small(), Ev{Kind: "rmpdr", Sess: 0, PDR: 1}, Ev{Kind: "mkpdr", Sess: 0, PDR: 1, FAR: 1}, small(), forw)
@@ -695,11 +722,11 @@ func gen(t *rapid.T) Case {
 	}
 	n := rapid.IntRange(2, 14).Draw(t, "nev")
 	nsess := ns
-	if scen == "reuse" {
+	if scen == "reuse" || scen == "reassocreuse" {
 		nsess++
 	}
 	for i := 0; i < n; i++ {
-		k := rapid.SampledFrom([]string{"burst", "burst", "burst", "burst", "updfar", "updfar", "updfar", "updfar", "rmpdr", "mkpdr", "del", "est"}).Draw(t, "kind")
+		k := rapid.SampledFrom([]string{"burst", "burst", "burst", "burst", "updfar", "updfar", "updfar", "updfar", "rmpdr", "mkpdr", "del", "reassoc", "est", "est"}).Draw(t, "kind")
 		ev := Ev{Kind: k, Sess: rapid.IntRange(0, nsess-1).Draw(t, "sess")}
 		switch k {
 		case "burst":
